@@ -48,7 +48,7 @@ func c13return(c *core.Ctx, r *core.Report) {
 		return ok
 	}) {
 		call := ii.Ins.(*ssa.Call)
-		if isCallNodeMethod(call, "Out") && ii.Depth() == 0 {
+		if isCallNodeMethod(call, "Out") && c.FuncPkgRel(call.Parent()) == "analysis/taint" {
 			sites = append(sites, call.Call.Args[0])
 		}
 		if sc := call.Call.StaticCallee(); sc != nil && (sc.Name() == "checkEscape" || sc.Name() == "manageEscapeContexts") {
